@@ -2,6 +2,7 @@ package main
 
 import (
 	"fmt"
+	"runtime"
 	"sort"
 	"strings"
 	"time"
@@ -240,6 +241,8 @@ func (cs *CacheScen) Scenario() *Scenario {
 					// cannot say anything else); a table shape that cannot be produced is not a verdict
 					if msg := fmt.Sprint(r); strings.HasPrefix(msg, "SEQ: ") {
 						problem = strings.TrimPrefix(msg, "SEQ: ")
+					} else if _, isRT := r.(runtime.Error); isRT {
+						problem = "sequential prologue: the code under test panics: " + msg
 					} else {
 						problem, infra = fmt.Sprintf("scenario cannot be armed: %v", r), true
 					}
